@@ -60,4 +60,14 @@ theorem C12_rel_everyg (ord : Order) (ho : OrderOK ord) (pf M j nv : Nat) (ps : 
     obtain ⟨b, hm, hb⟩ := s2 γ ((RProg.sem_conjAll γ _).2 fun p hp => h p (List.mem_reverse.1 hp))
     exact ⟨b, (tr b).2 hm, hb⟩
 
+section Examples
+/-- non-vacuity: the instances of the body `member(e, qa)` for the collection `[1, 2]` -/
+example : ∀ p ∈ [RProg.call ⟨.member, [Term.num 1, .var 0], false⟩, RProg.call ⟨.member, [Term.num 2, .var 0], false⟩], p.WF 1 := by
+  intro p hp
+  simp only [List.mem_cons, List.not_mem_nil, or_false] at hp
+  rcases hp with rfl | rfl <;> refine ⟨trivial, fun t ht => ?_⟩ <;>
+    simp only [List.mem_cons, List.not_mem_nil, or_false] at ht <;>
+    rcases ht with rfl | rfl <;> intro y hy <;> simp [Term.vars, Term.num] at hy <;> omega
+end Examples
+
 end Pv
